@@ -217,6 +217,8 @@ def run_given(strategy, body, ctx, max_examples, shrink=None, salt=0):
     from hypothesis import HealthCheck, Phase, given, settings
 
     col = ctx.col
+    scale = float(os.environ.get("VPBT_SCALE", "1") or "1")  # development aid only
+    max_examples = max(1, int(max_examples * scale))
     if shrink is None:
         shrink = ctx.thorough or os.environ.get("VPBT_SHRINK") == "1"
     seed_value = ctx.seed + salt * 104729
